@@ -13,13 +13,18 @@ judge : the property text evaluated on the REAL scheduler's message log (`msgs`:
       changes no status and makes the scheduler poll the task in the same main loop;
   (c) convergence: for every task instance whose latest job has exactly one actual outcome among the
       delivered events (succeeded | failed | submission failed — by message, submit result or poll
-      result; a failed submission together with started/succeeded/failed events of the same job is not
+      result; a failed submission together with submitted/started/succeeded/failed events of the same job is not
       a job history) and that outcome has been processed, with no poll outstanding: the last state of the task
       is that outcome (succeeded; failed or waiting-for-retry; submit-failed or waiting-for-retry) with
       submitted/started/the outcome complete, and every custom output the job delivered is complete.
 
   (a') stale poll results: the result of a jobs-poll command for an older job of the task (op `pollres`
       with a submit number below the pooled task's) changes nothing.
+
+  (d) poll translation: a jobs-poll result for the current job (op `pollres`, fed through the real
+      `_poll_task_jobs_callback`) reaches the task as the message its job state stands for: running → started,
+      exited 0 → succeeded, error trap → failed, signal → failed/<SIGNAL>, started and gone without an exit
+      record (died without its trap) → failed, never ran and gone → submission failed.
 
 A poll result of the CURRENT job is believed unconditionally by cylc-flow; one that was overtaken by job
 messages can take a finished task back: recorded finding `late-poll` (findings/C10.json), recognised by
@@ -85,7 +90,7 @@ def evOf (op : Json) : Option Ev := do
   match kind with
   | "subres" => pure { p, n, sn, kind, text := if (jBoolField? op "ok").getD true then "submitted" else "submission failed" }
   | "msg" => pure { p, n, sn, kind, text := baseMsg (← jStrField? op "msg") }
-  | "pollres" => pure { p, n, sn, kind, text := baseMsg (← jStrField? op "state") }
+  | "pollres" => pure { p, n, sn, kind, text := baseMsg (pollExpected (← jStrField? op "state")) }
   | _ => none
 
 def isOutcome (t : String) : Bool := t == "succeeded" || t == "failed" || t == "submission failed"
@@ -110,7 +115,7 @@ def judgeConverge (ts : List TInfo) (ops obs : List Json) : List String :=
     let outcomes := dedup ((jobEvs.filter fun e => isOutcome e.text).map (·.text))
     -- a job whose submission failed does not run: such event sets have no well-defined actual outcome
     let inconsistent := outcomes.contains "submission failed" &&
-      jobEvs.any fun e => ["started", "succeeded", "failed"].contains e.text
+      jobEvs.any fun e => ["submitted", "started", "succeeded", "failed"].contains e.text
     -- a poll the scheduler requested (backward message) and that has not been answered yet
     let pollPending := cur.foldl (fun (pend : Bool) r => if r.fl == "polled" then r.r else pend || r.r) false
     match outcomes, cur.getLast? with
@@ -174,6 +179,28 @@ def judgeStalePolls (ops obs : List Json) : List String :=
     | _, _ => []
   go 1 ops obs
 
+/-- (d): a poll result of the current job is reported to the task as the message its job state stands for -/
+def judgePollTranslation (ops obs : List Json) : List String :=
+  let rec go (idx : Nat) : List Json → List Json → List String
+    | op :: ops, prev :: ob :: rest =>
+      let here : List String :=
+        if jStrField? op "op" != some "pollres" then [] else
+        match (jStrField? op "task").bind (fun t => (parseTaskId t).toOption), jStrField? op "state", jNatField? op "sn" with
+        | some (p, n), some state, some sn =>
+          match (poolObs prev).bind (·.find? fun x => x.p == p && x.n == n) with
+          | some x =>
+            if x.sn != sn || sn == 0 then [] else
+            let want := pollExpected state
+            let got := ((recsOf ob).getD []).filter fun r => r.d == 0 && r.fl == "polled" && r.p == p && r.n == n
+            if got.any (fun r => r.m == want) then []
+            else [s!"obs {idx}: {p}/{n} poll of job {sn} found the job state '{state}', to be reported as '{want}', " ++
+                  s!"but the task was told {got.map (·.m)}"]
+          | none => []
+        | _, _, _ => []
+      here ++ go (idx + 1) ops (ob :: rest)
+    | _, _ => []
+  go 1 ops obs
+
 def judge (i o : Json) : Option String :=
   let ts := tinfos ((jField? i "graph").getD Json.null)
   let obs := obsList o
@@ -181,7 +208,7 @@ def judge (i o : Json) : Option String :=
   let rec go (idx : Nat) : List Json → List String
     | [] => []
     | ob :: rest => judgeObs idx ob ++ go (idx + 1) rest
-  pickFailure findingKeys (go 0 obs ++ judgeStalePolls ops obs ++ judgeConverge ts ops obs)
+  pickFailure findingKeys (go 0 obs ++ judgeStalePolls ops obs ++ judgePollTranslation ops obs ++ judgeConverge ts ops obs)
 
 def handle (i o : Json) : Except String Reply := do
   if let some r := crashReply? i then return r
